@@ -72,3 +72,16 @@ Proof.
   intros H. exists [c]. split; [constructor; [exact H | constructor] |].
   cbn. symmetry. apply app_nil_r.
 Qed.
+
+(* C12: what "each ill-formed sequence is replaced by the mark, the well-formed text around it is
+   preserved, the count equals the number of replacements" means.  Segmentation is specified, not
+   imposed: an ill-formed chunk is any non-empty run of at most [maxlen src] units standing where no
+   well-formed sequence starts. *)
+Inductive skip_spec (src dst : width) (mark : list N) : list N -> list N -> nat -> Prop :=
+| ss_nil : skip_spec src dst mark [] [] 0
+| ss_good c r o n : scalar c -> skip_spec src dst mark r o n ->
+    skip_spec src dst mark (enc src c ++ r) (enc dst c ++ o) n
+| ss_bad chunk r o n : (1 <= length chunk <= maxlen src)%nat ->
+    (forall c, scalar c -> ~ is_prefix (enc src c) (chunk ++ r)) ->
+    skip_spec src dst mark r o n ->
+    skip_spec src dst mark (chunk ++ r) (mark ++ o) (S n).
